@@ -31,6 +31,11 @@ def run(ck):
         g = dict(g); g["calls"] = part_calls(g, i % (60 if q else 15) == 0); groups.append(g)
     for i, g in enumerate(gen.part_families(ck.rng, 120 if q else 3000, maxn=9, maxv=60, maxk=4)):
         g["calls"] = part_calls(g, i % 40 == 0); g["watchdog"] = 10; groups.append(g)
+    # the recursive / sequential searches keep and re-use bins-arrays across their loop iterations from about 7 items on: contents and sums can drift apart there
+    for g in gen.rnp_families(ck.rng, 250 if q else 5000):
+        n, k = len(g["vals"]), g["k"]
+        g["calls"] = [dict(call(a, "list"), allot=True) for a in g["only"] if feasible(a, n, k)]
+        g.pop("only"); g["watchdog"] = 10; groups.append(g)
     traces = core.pmap(drive.run_part_group, groups)
     for t in traces:
         ck.evaluations += sum(1 + len(r.get("ots", [])) for r in t["res"])
